@@ -391,5 +391,14 @@ impl Area for Answers {
 fn main() {
     std::panic::set_hook(Box::new(|_| {}));
     let args = parse_args();
+    // a replay file of the black-box half (`faults`) is not ours to judge
+    if let Some(path) = &args.replay {
+        if read_replay_ops(path).iter().any(|l| l.starts_with("req ")) {
+            if !args.out.is_empty() {
+                let _ = std::fs::write(&args.out, r#"{"area":"answers","evaluations":0,"failures":[],"note":"replay belongs to the faults run"}"#);
+            }
+            std::process::exit(0);
+        }
+    }
     std::process::exit(run_area(&Answers, &args));
 }
